@@ -1,7 +1,7 @@
 """connlib.py — shared runner for the protocol-layer properties (C02, C03, C09, C10, C18)."""
 from vlib import Failure, compare, finish, unhexs
 
-COQ_FILES = ["Bytes.v", "Tables.v", "ParserModel.v", "BuilderModel.v", "ConnModel.v", "ParserProofs.v", "ConnProofs.v"]
+COQ_FILES = ["Bytes.v", "Tables.v", "ParserModel.v", "BuilderModel.v", "ConnModel.v", "ParserProofs.v", "ConnProofs.v", "GrammarProofs.v"]
 
 
 def run_cases(ctx, cases):
